@@ -1,9 +1,8 @@
 /-
   Lemmas/GenEqSpons — the regenerated translation of the Go expressions and facts M-Spons hinges on
   (`Gen/Spons.lean`, rewritten from /repo's working tree by every check) equals what the hand-written
-  model uses.  A semantic change in the Go source (e.g. the hook merging
-  `applyWeights(new) − applyWeights(old)`, the epoch hook looking at the identifier, a cap in
-  `EstimateClaim`) changes the generated term and breaks the corresponding lemma here.
+  model uses.  A semantic change in the Go source (e.g. the hook going back to merging
+  `applyWeights(new − old)`, the epoch hook ignoring the identifier again, a cap in `EstimateClaim`) changes the generated term and breaks the corresponding lemma here.
 -/
 import DymVerif.Gen.Spons
 import DymVerif.Model.Spons
@@ -29,21 +28,32 @@ theorem spons_claimAmount_eq (s : State) (a : Nat) (g : Gauge) (e : Endorsement)
   simp only [h2, if_false]
   rw [if_neg (by omega), if_neg (by omega)]
 
-/-- `processHook`: the comparison value and the power handed to `ApplyWeights` are the source's -/
+/-- `processHook` when the vote is kept: the source subtracts the old vote's distribution, sets the new
+    power and adds the new vote's distribution (distribution and endorsement shares each time) -/
+theorem spons_hookScript_eq : Gen.Spons.hookScript =
+    ["oldUpdate := vote.ToDistribution().Negate()",
+     "UpdateDistribution(oldUpdate.Merge)",
+     "UpdateTotalSharesWithDistribution(oldUpdate)",
+     "vote.VotingPower = newTotalVP",
+     "update := vote.ToDistribution()",
+     "UpdateDistribution(update.Merge)",
+     "UpdateTotalSharesWithDistribution(update)"] := rfl
+
+/-- … and the model's `processHook` is that script, with the source's comparison value -/
 theorem spons_processHook_eq (s : State) (a val : Nat) (v : Vote) (old new : Int) :
     s.processHook a val v old new =
       if Gen.Spons.hookNewTotal v.vp old new < s.minVP then s.revokeVote a v else
-        let s1 := s.applyUpdate (applyWeights (Gen.Spons.hookUpdatePower v.vp old new) v.weights)
-        { s1 with votes := aset a ⟨Gen.Spons.hookNewTotal v.vp old new, v.weights⟩ s1.votes,
+        let nv : Vote := ⟨Gen.Spons.hookNewTotal v.vp old new, v.weights⟩
+        let s1 := (s.applyUpdate v.toDist.negate).applyUpdate nv.toDist
+        { s1 with votes := aset a nv s1.votes,
                   dvp := if new = 0 then aerase (a, val) s1.dvp else aset (a, val) new s1.dvp } := rfl
 
-/-- the model clears the blacklist and re-snapshots at the end of an epoch of ANY identifier because
-    the source ignores the identifier -/
-theorem spons_epochHook_any_identifier :
-    Gen.Spons.epochHookIgnoresIdentifier = true ∧
-    ∀ s : State, (s.epochEnd false).blacklist = [] ∧
-      (s.epochEnd false).endorsements = s.endorsements.map (fun e => { e with epoch := e.total }) :=
-  ⟨rfl, fun _ => ⟨rfl, rfl⟩⟩
+/-- the model's sponsorship epoch hook acts at the end of the x/incentives distribution epoch only,
+    because the source returns early for every other identifier -/
+theorem spons_epochHook_only_distr_identifier :
+    Gen.Spons.epochHookOnlyOnDistrIdentifier = true ∧ Gen.Spons.epochHookIgnoresIdentifier = false ∧
+    ∀ s : State, s.epochEnd false = s :=
+  ⟨rfl, rfl, fun _ => rfl⟩
 
 /-- the model's slash fires no hook because `BeforeValidatorSlashed` is a no-op -/
 theorem spons_slash_no_hook :
